@@ -159,7 +159,7 @@ def io_modules(K=None):
         m.h5py, m.np = saved
 
 
-NATIVE = {"on": False, "rng": None}
+NATIVE = {"on": False, "rng": None, "dtype": np.float64}
 
 
 def tokens(name, shape):
@@ -170,6 +170,11 @@ def tokens(name, shape):
         special = [np.nan, np.inf, -np.inf, 5e-324, -0.0, 1.7976931348623157e308]
         for j in range(min(len(flat), 3)):
             flat[int(rng.integers(0, len(flat)))] = special[int(rng.integers(0, len(special)))]
+        if NATIVE["dtype"] is np.float32:
+            with np.errstate(over="ignore", under="ignore"):
+                a = a.astype(np.float32)
+            flat = a.reshape(-1)
+            flat[int(rng.integers(0, len(flat)))] = np.float32(1e-45)  # a single-precision denormal
         return a
     from svx import objnp
     return objnp.fresh(name, shape)
@@ -214,6 +219,7 @@ def _layouts():
         out.append(dict(dim=dim, nmark=4, variant="eulerian_only"))
         out.append(dict(dim=dim, nmark=4, variant="non_contiguous_views"))
         out.append(dict(dim=dim, nmark=3, variant="fortran_ordered_arrays"))
+        out.append(dict(dim=dim, nmark=3, variant="single_precision"))
     return out
 
 
@@ -261,6 +267,9 @@ def build(io, dim, nmark, variant, tag):
                "'origin, spacing or grid size differ' read as differing beyond numpy.allclose's default tolerance"))
 def io_round_trip(K, dim, nmark, variant):
     sym = K.mode == "sym"
+    # "single_precision": on the compiled code every registered array is float32 (SophT's default precision); the symbolic
+    # run is precision-agnostic (opaque symbols)
+    NATIVE["dtype"] = np.float32 if variant == "single_precision" else np.float64
     work = os.path.join(os.environ.get("SVX_WORK", os.path.join(os.path.dirname(os.path.dirname(os.path.abspath(__file__))), ".work")),
                         f"io_{os.getpid()}")
     os.makedirs(work, exist_ok=True)
@@ -383,6 +392,17 @@ def io_round_trip(K, dim, nmark, variant):
             else:
                 with h5py.File(fname, "a") as h:
                     h["Eulerian/Parameters"].attrs[attr] = keep
+
+
+@unit("io_round_trip_native_precisions", props=("C17", "C18"), kernels=False, native_check=True,
+      configs=[dict(dim=d, variant=v) for d in (2, 3) for v in ("single_precision", "full", "fortran_ordered_arrays")],
+      desc="BOUNDED native stand-in for the assumed h5py contract: the real IO methods on real h5py files with float32 and "
+           "float64 payloads (NaN, inf, denormals), values written after registration")
+def io_round_trip_native_precisions(K, dim, variant):
+    """the io_round_trip clauses on the compiled stack (real h5py, real numpy dtypes) on every run of the check"""
+    if K.mode == "sym":
+        return None
+    return io_round_trip(K, dim, 3, variant)
 
 
 @unit("io_derived_classes", props=("C17",), configs=[dict(dim=2), dict(dim=3)], kernels=False,
